@@ -238,6 +238,19 @@ impl Bitstr {
 // `Cell::Str(Xstr::from(x))` (src/cell.rs): ASSUMED one-liner over the arcstr conversion
 impl From<String> for Cell { #[verifier::external_body] fn from(x: String) -> (r: Cell) ensures r is Str && xstr_chars(r->Str_0) == x@ { unimplemented!() } }
 //@use cursor.fns ::bitstr_to_hex
+// the memchr crate's substring search (dependency; ASSUMED): the first occurrence, if any
+pub mod memmem {
+    use super::*;
+    pub open spec fn occurs_at(h: Seq<u8>, n: Seq<u8>, p: int) -> bool { 0 <= p && p + n.len() <= h.len() && h.subrange(p, p + n.len()) == n }
+    #[verifier::external_body]
+    pub fn find(haystack: &&[u8], needle: &std::borrow::Cow<'_, [u8]>) -> (r: Option<usize>)
+        ensures
+            r is Some ==> occurs_at(haystack@, cow_bytes(*needle), r->0 as int)
+                && forall|p: int| 0 <= p < r->0 ==> !#[trigger] occurs_at(haystack@, cow_bytes(*needle), p),
+            r is None ==> forall|p: int| !#[trigger] occurs_at(haystack@, cow_bytes(*needle), p),
+    { unimplemented!() }
+}
+//@use cursor.fns ::word_find
 
 // ---- nulbytestr: the bytes up to and including the first zero byte
 spec fn byte_zero(v: Seq<bool>, k: int) -> bool {
